@@ -2,6 +2,7 @@ SPECIFICATION Spec
 CONSTANTS
   N = 3
   Timed = {0, 1}
+  ReqAt = {0, 1, 2}
   MaxTerm = 2
   MaxEl = 2
   MaxHb = 2
